@@ -164,7 +164,7 @@ class Obligation:
         self.model = None
         self.reason = ""
 
-    def formulas(self, extra_trig=False):
+    def formulas(self, extra_trig=False, instantiate=False):
         g = self.goal
         fs = list(self.hyps)
         if not isinstance(g, bool):
@@ -174,6 +174,11 @@ class Obligation:
         ax = T.sum_axioms(fs)
         fs += ax
         fs += T.ext_axioms(fs)
+        if instantiate:
+            inst = T.instantiate_quantified(fs)
+            fs += inst
+            # nested quantifiers exposed by the first round
+            fs += T.instantiate_quantified(inst, cap=300)
         fs += T.theory_axioms(fs, extra_trig=extra_trig)
         return fs
 
@@ -582,7 +587,7 @@ def _solve_one(args):
     except Exception as e:
         return (idx, "undecided", "none", time.time() - t0, None, f"encoding error: {type(e).__name__}: {e}")
     trig = _has_trig(fs)
-    short = min(5000, timeout_ms)
+    short = min(4000, timeout_ms)
     r, s = _z3_check(fs, short)
     attempts.append(f"z3={r}")
     if r == z3.unsat:
@@ -603,9 +608,18 @@ def _solve_one(args):
     if model is None:
         try:
             fa = T.abstract_nonlinear(fs)
-            r3, _ = _z3_check(fa, timeout_ms)
+            r3, _ = _z3_check(fa, min(timeout_ms, 15000))
             attempts.append(f"z3[nl-abstraction]={r3}")
             if r3 == z3.unsat:
+                return (idx, "discharged", "z3+nl-abstraction", time.time() - t0, None, " ".join(attempts))
+            fi = ob.formulas(extra_trig=trig, instantiate=True)
+            r6, _ = _z3_check(fi, min(timeout_ms, 10000))
+            attempts.append(f"z3[inst]={r6}")
+            if r6 == z3.unsat:
+                return (idx, "discharged", "z3+instantiation", time.time() - t0, None, " ".join(attempts))
+            r7, _ = _z3_check(T.abstract_nonlinear(fi), timeout_ms)
+            attempts.append(f"z3[inst+nl-abstraction]={r7}")
+            if r7 == z3.unsat:
                 return (idx, "discharged", "z3+nl-abstraction", time.time() - t0, None, " ".join(attempts))
         except Exception as e:
             attempts.append(f"nl-abstraction-error={type(e).__name__}:{e}")
@@ -671,7 +685,7 @@ def solve(reports, timeout_ms=20000, procs=None):
     if procs == 1 or n == 1:
         res = [_solve_one(j) for j in jobs]
     else:
-        with ctxm.Pool(procs) as pool:
+        with ctxm.Pool(procs, maxtasksperchild=1) as pool:
             res = pool.map(_solve_one, jobs, chunksize=1)
     for idx, status, backend, dt, model, reason in res:
         ob = _OBLS[idx][0]
